@@ -77,12 +77,18 @@ ResetState ==
     /\ gs' = Nil /\ agg' = <<>> /\ db' = <<>> /\ up' = TRUE /\ loop' = <<>> /\ now' = 0
     /\ out' = {} /\ learned' = {} /\ observed' = {}
 
+\* ln.a.late[d]: the observation's timestamp is more than the settlement time after body d's (harness input arithmetic)
+LateOf(ln) == LET id == ln.a.m.id
+             IN /\ id \in DOMAIN db
+                /\ db[id].d \in DOMAIN ln.a.late
+                /\ ln.a.late[db[id].d]
+
 Signed(ln) == \E i \in 1..Len(ln.s.out) : ln.s.out[i].kind = "obs"
 
 Apply(ln) ==
     CASE ln.ev = "Reset"        -> ResetState
       [] ln.ev = "SetUpdate"    -> SetUpdate(LSet(ln.a.set))
-      [] ln.ev = "LocalMessage" -> LocalMessageChoice(LMsg(ln.a.m), Signed(ln))
+      [] ln.ev = "LocalMessage" -> LocalMessageChoice(LMsg(ln.a.m), Signed(ln), LateOf(ln))
       [] ln.ev = "Inject"       -> Inject(LInj(ln.a.v))
       [] ln.ev = "Observation"  -> Observation(LObs(ln.a.o))
       [] ln.ev = "Loopback"     -> Loopback(ln.a.d)
